@@ -233,6 +233,36 @@ def run(ck, prog, ctx):
                         redefs = [pos for pos, s in b.stmts() if pos[0] in region and s.k == "assign" and s.place.is_local() and s.place.local in roots]
                         if not redefs:
                             validated = True
+        if validated and roots:
+            # no use of the count before it was validated (declared length, capacity, length byte must all see the final value)
+            vedges = []
+            check_loops = []
+            for cbi, ct in b.calls():
+                if ct.callee.method == "is_char_boundary" and len(ct.args) == 2:
+                    for e in positive_edges(b, pvn, cbi):
+                        if b.edge_dominates(e, bi):
+                            vedges.append(e)
+                    lp = b.loop_of(cbi)
+                    if lp:
+                        check_loops.append(lp[1])
+            early = []
+            for pos, st in b.stmts():
+                if st.k != "assign":
+                    continue
+                reads = [o for o in st.ops if o.place is not None and o.place.local in roots]
+                if st.rv["k"] in ("ref",) and st.rv["place"].local in roots and not st.rv.get("mut"):
+                    reads.append(st)
+                if not reads:
+                    continue
+                if any(pos[0] in lp for lp in check_loops):
+                    continue
+                if not any(b.edge_dominates(e, pos[0]) for e in vedges):
+                    # the statement that initialises the count reads other things, not the count itself
+                    early.append((pos, st))
+            owner0 = prog.bodies[b.root].short if b.kind == "Closure" and b.root in prog.bodies else b.short
+            ck.ob("TAINT", "count-used-before-validation/%s" % owner0, not early,
+                  "%s uses the byte count only after it was moved to a char boundary" % owner0 if not early else
+                  "%s reads the byte count (line %s) BEFORE it is moved to a char boundary: declared length / capacity and the bytes written disagree" % (owner0, early[0][1].line), where=b.where(t.line))
         whole = any(a[0] == "call" and a[1].endswith("::len") for a in cat) and not any(a[0] == "call" and a[1].endswith("cmp::min") for a in cat) and not any(a[0] == "const" for a in cat)
         ok = safe_src or validated or whole
         owner = prog.bodies[b.root].short if b.kind == "Closure" and b.root in prog.bodies else b.short
